@@ -4,6 +4,7 @@ import (
 	"fmt"
 	"go/token"
 	"go/types"
+	"math/big"
 	"strings"
 
 	"golang.org/x/tools/go/ssa"
@@ -159,6 +160,7 @@ func (e *Encoder) envAt(st *State, blk *ssa.BasicBlock, phiOverride map[string]V
 		env.vars[k] = v
 	}
 	env.old = e.baseEnv
+	env.localsFirst = true
 	env.lookup = func(name string) (Val, bool) {
 		if v, ok := phiOverride[name]; ok {
 			return v, true
@@ -372,6 +374,11 @@ func (e *Encoder) loopHeader(li *loopInfo, b *ssa.BasicBlock, st *State, pc stri
 			e.addObl(fmt.Sprintf("inv-init loop %d", li.ord), inv.Text, pc, s)
 		}
 	}
+	if e.primary {
+		for _, rb := range e.rangeBounds(li) {
+			e.addObl(fmt.Sprintf("inv-init loop %d range", li.ord), rb.text, pc, rb.at(e.vals[rb.phi].S))
+		}
+	}
 	// havoc
 	keys, all := e.memKeysWritten(li.body)
 	if all {
@@ -414,18 +421,93 @@ func (e *Encoder) loopHeader(li *loopInfo, b *ssa.BasicBlock, st *State, pc stri
 			c.assume(implies(pc, s))
 		}
 	}
+	// range-loop index bounds (fixed rule, see rangeBounds); checked at entry and at every back edge
+	for _, rb := range e.rangeBounds(li) {
+		c.assume(implies(pc, rb.at(e.vals[rb.phi].S)))
+	}
+}
+
+type rangeBound struct {
+	phi  *ssa.Phi
+	text string
+	at   func(p string) string
+}
+
+// rangeBounds recognises the two loop shapes go/ssa emits for `range` over slices/arrays/strings
+// (phi #rangeindex = [-1, phi+1], header test phi+1 < len) and over integers (phi #rangeint.iter =
+// [0, phi+1], rotated loop guarded by 0 < n, latch test phi+1 < n) and returns the index bounds as
+// inductive invariants. They are asserted like user invariants (inv-init / inv-keep), never trusted.
+func (e *Encoder) rangeBounds(li *loopInfo) []rangeBound {
+	c := e.c
+	var out []rangeBound
+	for _, in := range li.header.Instrs {
+		phi, ok := in.(*ssa.Phi)
+		if !ok {
+			break
+		}
+		if !isInt(phi.Type()) {
+			continue
+		}
+		t := phi.Type()
+		var limit ssa.Value
+		// find `phi+1 < L` in the loop with L defined outside the loop
+		for b := range li.body {
+			iff, ok := b.Instrs[len(b.Instrs)-1].(*ssa.If)
+			if !ok {
+				continue
+			}
+			cmp, ok := iff.Cond.(*ssa.BinOp)
+			if !ok || cmp.Op != token.LSS {
+				continue
+			}
+			add, ok := cmp.X.(*ssa.BinOp)
+			if !ok || add.Op != token.ADD || add.X != ssa.Value(phi) {
+				continue
+			}
+			if k, ok := add.Y.(*ssa.Const); !ok || k.Int64() != 1 {
+				continue
+			}
+			if d, ok := cmp.Y.(ssa.Instruction); ok && li.body[d.Block()] {
+				continue
+			}
+			limit = cmp.Y
+		}
+		if limit == nil {
+			continue
+		}
+		lim := e.val(limit).S
+		switch phi.Comment {
+		case "rangeindex":
+			lo := c.lit(t, big.NewInt(-1))
+			out = append(out, rangeBound{phi, "-1 <= rangeindex < len", func(p string) string {
+				return and(c.cmp("<=", t, lo, p), c.cmp("<", t, p, lim))
+			}})
+		case "rangeint.iter":
+			lo := c.lit(t, big.NewInt(0))
+			out = append(out, rangeBound{phi, "0 <= rangeint.iter < n", func(p string) string {
+				return and(c.cmp("<=", t, lo, p), c.cmp("<", t, p, lim))
+			}})
+		}
+	}
+	return out
 }
 
 func (e *Encoder) loopBack(li *loopInfo, from *ssa.BasicBlock, si int, st *State, pc string) {
-	if li.spec == nil {
-		return
-	}
 	h := li.header
 	pi := -1
 	for i, p := range h.Preds {
 		if p == from {
 			pi = i
 		}
+	}
+	if e.primary {
+		epc := and(pc, edgeCond(e, from, h, si))
+		for _, rb := range e.rangeBounds(li) {
+			e.addObl(fmt.Sprintf("inv-keep loop %d range", li.ord), rb.text, epc, rb.at(e.val(rb.phi.Edges[pi]).S))
+		}
+	}
+	if li.spec == nil {
+		return
 	}
 	over := map[string]Val{}
 	for _, in := range h.Instrs {
@@ -492,6 +574,12 @@ func (e *Encoder) instr(in ssa.Instruction, st *State, pc string) {
 		x := e.val(in.X)
 		switch in.Op {
 		case token.MUL: // load
+			if g, ok := in.X.(*ssa.Global); ok {
+				if s, ok := c.constGlobal(g.Pkg.Pkg.Path() + "." + g.Name()); ok {
+					e.vals[in] = Val{T: in.Type(), S: s}
+					break
+				}
+			}
 			e.panicObl("nil", "pointer dereference", pc, not(fmt.Sprintf("(= %s lnil)", x.S)))
 			v := e.load(st, x.S, in.Type())
 			// name large loads to keep terms small
@@ -955,6 +1043,7 @@ func (e *Encoder) ret(in *ssa.Return, st *State, pc string) {
 		return
 	}
 	env := e.envAt(st, in.Block(), nil)
+	env.localsFirst = false // in postconditions a parameter name denotes its entry value
 	for i, r := range in.Results {
 		if i < len(e.fc.ResultNames) && e.fc.ResultNames[i] != "_" {
 			env.vars[e.fc.ResultNames[i]] = e.val(r)
